@@ -5,3 +5,4 @@
 -/
 import Theorems.C03
 import Theorems.Typed
+import Theorems.Message
